@@ -280,10 +280,11 @@ class DIMSEServiceProvider:
                 return
 
             # Keep C-CANCEL requests separate from other messages
-            # Only allow up to 10 C-CANCEL requests
-            if isinstance(d_primitive, C_CANCEL) and len(self.cancel_req) < 10:
-                msg_id = cast(int, d_primitive.MessageIDBeingRespondedTo)
-                self.cancel_req[msg_id] = d_primitive
+            # Only allow up to 10 C-CANCEL requests, any more are ignored
+            if isinstance(d_primitive, C_CANCEL):
+                if len(self.cancel_req) < 10:
+                    msg_id = cast(int, d_primitive.MessageIDBeingRespondedTo)
+                    self.cancel_req[msg_id] = d_primitive
             elif (
                 isinstance(d_primitive, N_EVENT_REPORT) and d_primitive.is_valid_request
             ):
